@@ -71,6 +71,11 @@ def families(tier):
     add("F18-overlapping-block-rules", [[Rule("a 9", [Rule("c *")]), Rule("a *", [Rule("d *")])],
                                         [Rule("a 9", [Rule("c")], logic="undo_redo"), Rule("a *", [Rule("d *"), Rule("e")])],
                                         [Rule("b"), Rule("a 9 ~", [Rule("c *")]), Rule("a ~", [Rule("d")])]])
+    # F19: %ordered together with an explicit %logic on the same rule (the compiler lets %ordered win: moved rows are
+    #      removed and re-created whatever the named logic would do)
+    add("F19-ordered-with-logic", [[Rule("a *", ordered=True, logic=lg, nkeys=3)] for lg in ("undo_redo", "permanent", "ignore_changes")]
+        + [[Rule("a *", [Rule("c *", ordered=True, logic="undo_redo", nkeys=3)])],
+           [Rule("a *", [Rule("c")], ordered=True, logic="undo_redo"), Rule("b")]])
     if tier == "thorough":
         # F6: depth 3
         add("F6-depth3", [[Rule("a *", [Rule("c *", [Rule(shape(s, "e"), **f)])])]
